@@ -30,10 +30,13 @@ def save_meta(d, m):
     json.dump(m, open(os.path.join(d, "meta.json"), "w"), indent=1)
 
 
-def do_import(pid, round2=False):
+def do_import(pid, round2=False, round3=False):
     src = "/tmp/mut-%s-out" % pid
     variants = "AB"
-    if round2:
+    if round3:
+        src = "/tmp/mut3-%s-out" % pid      # third round: variants E and F
+        variants = "EF"
+    elif round2:
         src = "/tmp/mut2-%s-out" % pid      # second round: variants C and D
         variants = "CD"
     for v in variants:
@@ -101,6 +104,10 @@ def do_detect(name, props=None):
         print("refusing: /repo not clean:", st)
         return
     props = props or [m["property"]]
+    # evidence files describe runs against /repo itself: keep them out of reach of runs on a changed tree
+    keep = "/var/tmp/evidence-keep-%d" % os.getpid()
+    shutil.rmtree(keep, ignore_errors=True)
+    shutil.copytree(os.path.join(ROOT, "evidence"), keep)
     r = sh("git -C /repo apply %s" % os.path.join(d, "patch.diff"))
     res = {}
     try:
@@ -127,20 +134,55 @@ def do_detect(name, props=None):
     finally:
         sh("git -C /repo checkout -- .")
         sh("%s %s/tools/extract.py --quiet" % (PY, ROOT))
-    m.setdefault("detection", {}).update(res)
+        for f in os.listdir(keep):
+            shutil.copy(os.path.join(keep, f), os.path.join(ROOT, "evidence", f))
+        shutil.rmtree(keep, ignore_errors=True)
+    det = {k: v for k, v in m.get("detection", {}).items() if k.split("/")[0] not in props}   # drop stale results
+    det.update(res)
+    m["detection"] = det
     m["detected_by"] = sorted(k for k, v in m["detection"].items() if v["exit"] == 1)
     save_meta(d, m)
     for k, v in res.items():
         print(name, k, v["exit"], v["line"][:150], "%.0fs" % v["wall_s"])
 
 
+def do_summary():
+    """seeded/DETECTION.md: one line per seeded change, from the meta.json files"""
+    rows = []
+    for name in sorted(os.listdir(SEED)):
+        d = os.path.join(SEED, name)
+        if name.startswith("_") or not os.path.isdir(d):
+            continue
+        m = load_meta(d)
+        det = m.get("detection", {})
+        hit = [(k, v) for k, v in sorted(det.items()) if v.get("exit") == 1]
+        if hit:
+            k, v = hit[0]
+            how = "no-failing-input-found" if "no-failing-input-found" in v["line"] else "concrete input"
+            what = ((v.get("replay") or {}).get("what") or "")[:90]
+            rows.append("| %s | %s | %s | %s | %ss | %s |" % (name, "yes" if m.get("confirmed") else "?", k, how, v.get("wall_s"), what))
+        else:
+            rows.append("| %s | %s | **missed** (%s) | | | |" % (name, "yes" if m.get("confirmed") else "?", ",".join(sorted(det)) or "not run"))
+    with open(os.path.join(SEED, "DETECTION.md"), "w") as f:
+        f.write("# Seeded changes and the check that reports them\n\n"
+                "Generated by `tools/seeded_eval.py summary` from `seeded/*/meta.json` (each written by `detect`: patch applied to\n"
+                "/repo, `./check <property>` quick then thorough, patch undone). `_A/_B` first round, `_C/_D` second round.\n\n"
+                "| change | confirmed | first tier that reports it | replay | wall | what |\n|---|---|---|---|---|---|\n")
+        f.write("\n".join(rows) + "\n")
+    print("%d changes, %d missed" % (len(rows), sum("missed" in r for r in rows)))
+
+
 if __name__ == "__main__":
     cmd = sys.argv[1]
+    if cmd == "summary":
+        do_summary()
     for a in sys.argv[2:]:
         if cmd == "import":
             do_import(a)
         elif cmd == "import2":
             do_import(a, round2=True)
+        elif cmd == "import3":
+            do_import(a, round3=True)
         elif cmd == "confirm":
             do_confirm(a)
         elif cmd == "detect":
